@@ -117,6 +117,9 @@ TrRT ==
   /\ IsEv("PRT")
   /\ obj' = Put(obj, Ev.to, obj[Ev.id])
   /\ bits' = Put(bits, Ev.to, bits[Ev.id])
+  \* CpcWrapper (reads estimate and bounds straight from the image): nested, and the same advertised spread
+  /\ On("C01") => (/\ NonDecreasing(Ev.wb)
+                   /\ CpcRelOK(obj[Ev.id], [big |-> Ev.o.big, rel |-> Ev.wrel]))
   /\ On("C11") => (/\ FullOK(obj[Ev.id], Ev) /\ Ev.tok[1] = Ev.tok[2] /\ Ev.tok[1] = Ev.tok[3]
                    /\ Ev.same /\ Ev.wrap_lgk = obj[Ev.id].lgk /\ Ev.wrap_emp = (obj[Ev.id].c = 0))
   /\ UNCHANGED <<uni, ubits>>
